@@ -164,6 +164,16 @@ func run(op string, args []string) (res string) {
 
 const defaultOpTimeout = 120 * time.Second
 
+// pending records, before a call that could take the whole process down (a panic in a goroutine started by the
+// implementation cannot be recovered), what is being called, so that ./check can name the failing call.
+var pendingPath string
+
+func pending(desc string) {
+	if pendingPath != "" {
+		os.WriteFile(pendingPath, []byte(desc+"\n"), 0o644)
+	}
+}
+
 // progress watchdog: generators call the implementation too (to build valid inputs); if nothing at all has been
 // emitted for a long time the process says so and exits instead of blocking the check for hours.
 var lastProgress int64
@@ -206,6 +216,7 @@ func main() {
 	implOut := flag.String("impl", "", "write implementation result lines here")
 	statsOut := flag.String("stats", "", "write generator statistics (JSON) here")
 	replay := flag.String("replay", "", "execute the op lines of this file instead of generating")
+	flag.StringVar(&pendingPath, "pending", "", "file that names the implementation call in progress (read by ./check if the process dies)")
 	flag.Parse()
 
 	var ow, iw *bufio.Writer
